@@ -9,13 +9,15 @@ RULE = ('structured extension lists (ids 3..127, frames < nb_frames <= 48, paylo
         'and occasionally ~70000, repeat-eligible runs, trailing-short and last-long L=0 shapes, unsorted frame order, lists of '
         '2000..9000 entries, invalid id/frame/len/nb_frames) generated dry / exact / size-1 / padded and read back by every '
         'reader; arbitrary, token-biased and mutated bytes as padding; iterator op sequences (next/reset/set_frame_max/find); '
+        'repacketizer op sequences (cat / out_range / out_range_impl with extension lists, pad_impl) from the C07 harness; '
         'a case is distinct by its (op, outcome kind) class')
 NOT_COVERED = [
     'generate->parse round trip is proved only for lists on which the generator does not use the repeat mechanism '
     '(generate_parse_partial: nb_frames = 1, empty last frame, differing first extensions ...); with repeats it is only '
     'searched (S4) and tied differentially (S3)',
     'parse->generate->parse fixed point: searched (S4) only',
-    'repacketizer carriage of extensions (merge/split): searched on the implementation (S4) only, not modelled here',
+    'repacketizer carriage of extensions (merge/split): tied differentially through the C07 model (S3, ext-repack) and searched on '
+    'the implementation (S4); no theorem',
     'opus_int32 overflow of lengths: lengths are unbounded integers in the model (buffers < 2^31 assumed)',
     'iterator with nb_frames = 0 and a caller-raised frame_max > 0 (API misuse; the code then reports frame-0 extensions)',
 ]
@@ -33,8 +35,8 @@ UNPROVED = ['generate_parse (P1, full): parse_ext(generate(exts)) = stable sort 
             'fixed_point (P1): parse(generate(parse x)) = parse x for arbitrary bytes x (needs the full generate_parse)',
             'generate: short-ID extension with len > 1 or any extension with len < 0 => OPUS_BAD_ARG (proved only for bad id/frame/'
             'nb_frames: the length check sits inside write_extension_payload and can be preceded by BUFFER_TOO_SMALL)',
-            'repack_carries_ext (P1, with C07): extension carriage through opus_repacketizer_out_range_impl is searched on the '
-            'implementation (S4) only',
+            'repack_carries_ext (P1, with C07): extension carriage through opus_repacketizer_out_range_impl is tied (S3) and searched (S4) '
+            'only',
             'int_ranges: lengths/positions are unbounded Int/Nat in the model (opus_int32 overflow for buffers >= 2^31 not excluded)']
 
 
@@ -45,8 +47,13 @@ def _cases(ctx, quick, thorough):
 def ties(ctx):
     h = ctx.harness('c16_ext', ['c16_ext.c'], variant='san')
     out = []
-    out.append(common.run_tie('ext-rand', [h, 'rand', str(ctx.seed), _cases(ctx, 2500, 40000)]))
-    out.append(common.run_tie('ext-bytes', [h, 'bytes', str(ctx.seed + 1000), _cases(ctx, 30000, 600000)]))
+    out.append(common.run_tie('ext-rand', [h, 'rand', str(ctx.seed), _cases(ctx, 2500, 30000)]))
+    out.append(common.run_tie('ext-bytes', [h, 'bytes', str(ctx.seed + 1000), _cases(ctx, 30000, 400000)]))
+    # extension carriage through the repacketizer (merge / split / pad_impl with extension lists): op sequences of the C07
+    # harness (read-only use) through opus_repacketizer_out_range_impl, answered by the C07 model, which collects,
+    # renumbers and re-emits extensions with this model's parse / generate
+    hr = ctx.harness('c07_repack', ['c07_repack.c'], variant='san')
+    out.append(common.run_tie('ext-repack', [hr, 'rand', str(ctx.seed + 2000), _cases(ctx, 1500, 30000)]))
     # check.py looks at the first mismatches only: put those that are property violations on the
     # implementation (a concrete failing input) in front of plain model/implementation disagreements
     for tr in out:
